@@ -1,6 +1,7 @@
 import Model.Policy
 import Model.Edge
 import Model.QueueM
+import Model.Relay
 /-
   One call of `Queue.enqueue(envelope)` (slimta/queue/__init__.py) as the edges make it, composed from
   the three models it crosses:
@@ -69,5 +70,19 @@ def wsgiCode (c : Call) : Nat := Edge.wsgiSees (results c)
 /-- `Queue.enqueue(envelope)` for a policy chain. -/
 def call (cfg : Policy.Cfg) (ps : List Policy.Pol) (e : Policy.Env) (ws : List W) (now : Nat) (nn relay : Bool) : Call :=
   { envs := Policy.runPolicies cfg ps e, ws := ws, now := now, nonNull := nn, relay := relay }
+
+/-! ## The proxying queue in front of an SMTP relay
+
+`ProxyQueue.enqueue` (slimta/queue/proxy.py) calls `relay._attempt(envelope, 0)` in the edge's own greenlet; with a
+`StaticSmtpRelay` behind it what comes back is the result of Model/Relay.lean. `code i c`: the code of the reply the error object
+for recipient `i` (class `c`) carries — whatever the next hop said, or what the relay made up for a failure of its own. -/
+
+def relayOutOf (code : Nat → Relay.Cls → Nat) : Relay.Result → Edge.RelayOut
+  | .table l => .perRcpt (l.zipIdx.map fun (c, i) => match c with | .ok => none | c => some (code i c))
+  | .raised c => .raised (code 0 c)
+
+/-- What the client of the edge sees when the message goes edge → ProxyQueue → SMTP relay → a next hop behaving as `s`. -/
+def proxyHop (code : Nat → Relay.Cls → Nat) (cfg : Relay.Cfg) (s : Relay.Script) : Option (List Edge.Res) :=
+  some (Edge.proxyEnqueue (relayOutOf code (Relay.attempt cfg s)))
 
 end Slimta.Ingress
